@@ -21,6 +21,8 @@ OPS = [
     ("MV", "a.py", "c.py"), ("MV", "a.py", "d/c.py"), ("MV", "a.py", "e/a.py"), ("MV", "b.py", "e/b.py"),
     ("MV", "d", "g"), ("MV", "d", "e/d"), ("MV", "d/a.py", "x.py"), ("MV", "b.py", "a.py"),
     ("RM", "b.py"), ("RM", "d"), ("RM", "d/a.py"), ("RM", "e"),
+    # a move whose destination folder does not exist: the file system refuses it, so the composite fails by itself
+    ("MVX", "b.py", "q/b.py"),
 ]
 OPS_SMALL = [o for o in OPS if o in (
     ("W", "a.py"), ("W", "e/n.py"), ("CF", "e", "n.py"), ("CD", "", "e"), ("MV", "a.py", "e/a.py"),
@@ -50,6 +52,9 @@ def apply_model(m, op):
             if not m.exists(op[1]):
                 return False
             m.remove(op[1])
+        elif k == "MVX":
+            # no effect in the model: the real move must fail (missing destination folder) and undo everything before it
+            return m.is_file(op[1]) and not m.exists(op[2].split("/")[0])
         else:
             return False
     except AssertionError:
@@ -91,7 +96,7 @@ def build_change(project, ops, model, desc="composite"):
         elif k == "CD":
             parent = project.get_folder(o[1]) if o[1] else project.root
             cs.add_change(change.CreateFolder(parent, o[2]))
-        elif k == "MV":
+        elif k in ("MV", "MVX"):
             res = project.get_folder(o[1]) if model.is_dir(o[1]) else project.get_file(o[1])
             cs.add_change(change.MoveResource(res, o[2], exact=True))
         elif k == "RM":
@@ -165,7 +170,7 @@ class C10(Check):
     chunksize = 8
 
     def bound_text(self, tier):
-        return "composite length <=3 full alphabet (23 ops) + nested variants" if tier == "quick" else \
+        return "composite length <=3 full alphabet (24 ops) + nested variants" if tier == "quick" else \
             "length <=3 full alphabet + nested, length 4 over 12-op sub-alphabet"
 
     def cases(self, tier):
@@ -226,11 +231,23 @@ class C10(Check):
             T0 = snap(env.root)
             th = Stopper(0)
             env.fs.arm(0)
+            hist0 = env.hist()
             try:
                 env.p.do(env.cs, task_handle=th.th)
             except Exception as e:
-                out("invalid-composite:" + type(e).__name__)
+                # the composite fails without any injected deviation (a sub-change the file system refuses):
+                # that is a failure part-way too, and must leave no trace
+                out("composite-fails-by-itself:" + type(e).__name__)
                 res["n"] += 1
+                if env.fs.n > 1:
+                    res["nt"].append(h8([op_str(ops) if ops else case, "self-failure"]))
+                sf = ["phase:do", "dev:none-composite-fails-by-itself"]
+                if ops and "MVX" in flat_kinds:
+                    sf += ["eff:" + k for k in flat_kinds[:flat_kinds.index("MVX")]]     # sub-changes applied before the refused one
+                if snap(env.root) != T0:
+                    fail("tree-differs", sf, {"expected": show(T0), "got": show(snap(env.root)), "exception": repr(e)})
+                elif env.hist() != hist0:
+                    fail("history-differs", sf, {"exception": repr(e)})
                 return res
             K_do, J_do, log_do = env.fs.n, th.count, list(env.fs.log)
             T1 = snap(env.root)
